@@ -35,7 +35,7 @@ SPEC = dict(
               "monitored-database-rounds": 40, "goroutines-16": 6, "quiescent-checks": 1000, "collector-resets": 150, "package-level-monitor-rounds": 25, "default-collector-resets": 40, "many-series-probes": 9, "custom-bucket-histograms": 24, "monitor-paused-and-resumed": 150, "monitor-bystander-calls": 2500, "distinct-series-registered-concurrently": 30000, "non-finite-observations": 80, "exported-percentile-checks": 3000, "exported-percentiles-two-in-the-overflow-bucket": 1000},
              {"evaluations": 3000000, "distinct_nontrivial": 80000, "identities-0tag": 14000, "identities-1tag": 24000, "identities-2+tags": 85000,
               "monitor-search-ops": 500000, "monitor-db-ops": 450000, "concurrent-ops": 700000, "percentile-checks": 260000,
-              "monitored-database-rounds": 1500, "goroutines-16": 60, "quiescent-checks": 44000, "collector-resets": 20000, "package-level-monitor-rounds": 4000, "default-collector-resets": 5000, "many-series-probes": 18, "custom-bucket-histograms": 400, "monitor-paused-and-resumed": 10000, "monitor-bystander-calls": 60000, "distinct-series-registered-concurrently": 1000000, "non-finite-observations": 10000, "exported-percentile-checks": 100000, "exported-percentiles-two-in-the-overflow-bucket": 40000}),
+              "monitored-database-rounds": 1500, "goroutines-16": 60, "quiescent-checks": 44000, "collector-resets": 20000, "package-level-monitor-rounds": 4000, "default-collector-resets": 5000, "many-series-probes": 18, "custom-bucket-histograms": 400, "monitor-paused-and-resumed": 10000, "monitor-bystander-calls": 2500, "distinct-series-registered-concurrently": 1000000, "non-finite-observations": 10000, "exported-percentile-checks": 100000, "exported-percentiles-two-in-the-overflow-bucket": 40000}),
     assumptions=[
         "observations are non-negative integers below 2^38 and at most a few thousand per histogram, so the float64 sum is exact in any order",
         "counters are driven with Inc and Add(k), 0 <= k <= 1000; gauges with Inc/Dec/Add of integers (Set is last-writer-wins and is not compared)",
